@@ -6,8 +6,9 @@ import itertools
 import numpy as np
 
 
-def all_schemes():
-    """list of scheme descriptors (flat dicts)."""
+def all_schemes(extended=False):
+    """list of scheme descriptors (flat dicts). extended=True appends the admissible orders beyond the shared catalogue (binary and 128/256-ary PSK,
+    128/256-ary PAM, 32/64-ary DPSK); used by the per-scheme units of C05, C06 and C14 only (the cross-scheme consumers keep the base list)."""
     out = [{"scheme": "bpsk"}, {"scheme": "identity"}]
     for nz in (True, False):
         out.append({"scheme": "qpsk", "normalize": nz})
@@ -30,6 +31,14 @@ def all_schemes():
     out.append({"scheme": "dqpsk"})
     for gray in (True, False):
         out.append({"scheme": "pi4qpsk", "gray": gray})
+    if extended:
+        for gray in (True, False):
+            for order in (2, 128, 256):
+                out.append({"scheme": "psk", "order": order, "gray": gray})
+            for order in (128, 256):
+                out.append({"scheme": "pam", "order": order, "gray": gray, "normalize": gray})
+            for order in (32, 64):
+                out.append({"scheme": "dpsk", "order": order, "gray": gray})
     return out
 
 
